@@ -1,14 +1,17 @@
 """C07 -- partial save writes exactly the selected part of the tree, always with the root."""
 import random
 from harness import tree as T, fileabs as FA
-from harness.tree import run_all, emit, COQ_IMPORTS, CASETY, CHECKFN
+from harness.tree import COQ_IMPORTS, CASETY, CHECKFN
+from harness import core
 
 PROP = 'C07'
 TARGETS = ['Props/C07.vo', 'Corr/XTree.vo']
 PROPS_FILE = 'Props/C07.v'
 RULE = ('every node (root, inner, leaf) of random trees (2..25 nodes, depth <= 8, root metadata 0..3 entries) as save target x '
         '3 tree options into fresh files, all from the SAME live objects within one scenario (up to 40 saves per scenario), plus '
-        'unrooted targets; several mode spellings; non-trivial = distinct (tree, target, option) triples with a non-root target')
+        'unrooted targets; several mode spellings; plus trees holding a Custom node whose attribute node is also its own child / placed '
+        'elsewhere / not in the tree, every target x 3 options, group paths compared by a raw h5py walk; non-trivial = distinct '
+        '(tree, target, option) triples with a non-root target')
 MODELLED = ['payload templates with content tokens']
 ASSUMPTIONS = ['runtime trees well formed (C12); valid names']
 
@@ -42,7 +45,102 @@ def cases(seed, tier):
             for tr in (True, False, None):
                 steps.append({'op': 'save', 'file': len(steps), 'top': 1, 'tp': [], 'mode': 'w', 'tree': tr})
         out.append({'tops': tops, 'steps': steps})
+    # a composition (Custom) node whose attribute node is ALSO a node of the tree -- its own child, or placed elsewhere -- under a node
+    # name that differs from the attribute's name (this stream comes last: see emit)
+    for i in range(9 if tier == 'quick' else 90):
+        out.append({'kind': 'customattr', 'where': ['own_child', 'elsewhere', 'not_in_tree'][i % 3], 'depth': 1 + (i // 3) % 2, 'cls': ['Array', 'PointList', 'Node'][(i // 3) % 3]})
     return out
+
+
+def _custom_layout(c):
+    """the runtime tree of a customattr case as nested (name, groups written with the node itself, children)"""
+    pc = ('pc', [], [('deep', [], [])])
+    box = ('box', ['part'], [('other', [], [])] + ([pc] if c['where'] == 'own_child' else []))
+    cur = box
+    for d in reversed(range(c['depth'])):
+        cur = ('plain%d' % d, [], [cur] + ([pc] if c['where'] == 'elsewhere' and d == c['depth'] - 1 else []))
+    return ('root', [], [cur])
+
+
+def _custom_expected(layout, tp, tree):
+    def sub(n, prefix, with_kids=True):
+        out = {prefix + '/' + n[0]} | {prefix + '/' + n[0] + '/' + g for g in n[1]}
+        if with_kids:
+            for k in n[2]:
+                out |= sub(k, prefix + '/' + n[0])
+        return out
+    node = layout
+    for x in tp:
+        node = next(k for k in node[2] if k[0] == x)
+    if not tp:
+        return sub(layout, '', tree is not False)
+    E = {'/root'}
+    if tree is None:
+        for k in node[2]:
+            E |= sub(k, '/root')
+    else:
+        E |= sub(node, '/root', tree is True)
+    return E
+
+
+def _run_custom(args):
+    c, scratch = args
+    import os, sys, types, numpy as np, h5py
+    import emdfile as emd
+    try:
+        class Box(emd.Custom):
+            def __init__(self, name='box'):
+                emd.Custom.__init__(self, name=name)
+                if c['cls'] == 'Array':
+                    self.part = emd.Array(np.arange(3), name='pc')
+                elif c['cls'] == 'PointList':
+                    self.part = emd.PointList(np.zeros(2, dtype=[('x', float)]), name='pc')
+                else:
+                    self.part = emd.Node(name='pc')
+        root = emd.Root(name='root')
+        cur = root
+        path = []
+        for d in range(c['depth']):
+            nd = emd.Node(name='plain%d' % d); cur.tree(nd); cur = nd; path.append(nd.name)
+        box = Box(); cur.tree(box); box.tree(emd.Node(name='other'))
+        if c['where'] == 'own_child':
+            box.tree(box.part); box.part.tree(emd.Node(name='deep'))
+        elif c['where'] == 'elsewhere':
+            cur.tree(box.part); box.part.tree(emd.Node(name='deep'))
+        layout = _custom_layout(c)
+        out = {'saves': []}
+        p = os.path.join(scratch, 'customattr_%d.h5' % os.getpid())
+        targets = [[], path[:1], path + ['box']] + ([path + ['box', 'pc']] if c['where'] == 'own_child' else [])
+        for tp in targets:
+            for tr in (True, False, None):
+                rec = {'tp': tp, 'tree': tr, 'expected': sorted(_custom_expected(layout, tp, tr))}
+                try:
+                    with core.quiet():
+                        emd.save(p, root.tree('/'.join(tp)) if tp else root, mode='o', tree=tr)
+                    got = []
+                    with h5py.File(p, 'r') as f:
+                        f.visititems(lambda name, g: got.append('/' + name) if isinstance(g, h5py.Group) and 'emd_group_type' in g.attrs and
+                                     g.attrs['emd_group_type'] not in ('metadatabundle', 'metadata') else None)
+                    rec['got'] = sorted(got)
+                except BaseException as e:
+                    rec['raised'] = type(e).__name__ + ': ' + str(e)[:100]
+                out['saves'].append(rec)
+        if os.path.exists(p):
+            os.remove(p)
+        return out
+    except BaseException:
+        import traceback
+        return [{'harness_error': traceback.format_exc()[-800:]}]
+
+
+def run_all(cases_, scratch):
+    nt = sum(1 for c in cases_ if c.get('kind') != 'customattr')
+    return T.run_all(cases_[:nt], scratch) + core.pmap(_run_custom, [(c, scratch) for c in cases_[nt:]])
+
+
+def emit(cases_, results):
+    nt = sum(1 for c in cases_ if c.get('kind') != 'customattr')
+    return T.emit(cases_[:nt], results[:nt])
 
 
 def expected(top, tp, tree):
@@ -72,6 +170,15 @@ def expected(top, tp, tree):
 
 
 def oracle(case, obs):
+    if case.get('kind') == 'customattr':
+        for rec in obs['saves']:
+            where = f"save of /{'/'.join(rec['tp'])} tree={rec['tree']} from a tree holding a Custom node whose attribute node is {case['where']} ({case['cls']})"
+            if 'raised' in rec:
+                return {'key': 'save-raised', 'what': where + f": raised {rec['raised']}"}
+            if rec['got'] != rec['expected']:
+                missing = sorted(set(rec['expected']) - set(rec['got'])); extra = sorted(set(rec['got']) - set(rec['expected']))
+                return {'key': 'selection', 'what': where + f': missing {missing[:4]} unexpected {extra[:4]}'}
+        return None
     for st, o in zip(case['steps'], obs):
         top = case['tops'][st['top']]
         where = f"save #{st['file']} target=/{'/'.join(st['tp'])} tree={st['tree']}"
@@ -90,20 +197,23 @@ def oracle(case, obs):
 
 
 def pick_smallest(cases_, idxs):
-    return min(idxs, key=lambda i: T.count_nodes(cases_[i]['tops'][0]))
+    return min(idxs, key=lambda i: T.count_nodes(cases_[i]['tops'][0]) if 'tops' in cases_[i] else 30)
 
 
 def nontrivial(cases_, results):
-    return len({(repr(c['tops'][st['top']]), tuple(st['tp']), st['tree']) for c in cases_ for st in c['steps'] if st['tp']})
+    return len({(repr(c['tops'][st['top']]), tuple(st['tp']), st['tree']) for c in cases_ if 'steps' in c for st in c['steps'] if st['tp']})
 
 
 def samples(cases_, results):
-    return [{'tree': c['tops'][0], 'steps': c['steps'][:4]} for c in cases_[:2]]
+    return [{'tree': c['tops'][0], 'steps': c['steps'][:4]} for c in cases_[:2] if 'tops' in c]
 
 
 def distribution(cases_, results):
     d = {'saves': 0, 'tree': {}, 'target_depth': {}, 'unrooted': 0}
     for c in cases_:
+        if 'steps' not in c:
+            d['custom_attribute_cases'] = d.get('custom_attribute_cases', 0) + 1
+            continue
         for st in c['steps']:
             d['saves'] += 1
             d['tree'][str(st['tree'])] = d['tree'].get(str(st['tree']), 0) + 1
